@@ -421,6 +421,9 @@ ASSUME = [
 ]
 
 
+ARM64_PIDS = ("C01", "C02", "C03", "C05", "C06")  # C04: operand sizes of ARM64 patch expressions are not modelled
+
+
 def make_rewrite_check(pid, tier, props):
     from harness import rewrite_shapes
     chk = run.Check(pid, tier)
@@ -430,13 +433,13 @@ def make_rewrite_check(pid, tier, props):
         if "C01" not in props and crash_pattern(spec):
             continue  # C01 known finding (apply() crashes); nothing to evaluate for the other properties
         chk.add(sid, h_rewrite, params=dict(spec=spec, props=props), timeout=900)
-    if pid in ("C01", "C02", "C03", "C05", "C06"):
+    if pid in ARM64_PIDS:
         for sid, spec in rewrite_shapes.arm64_shapes(tier):
             if "C01" not in props and crash_pattern(spec):
                 continue
             chk.add(sid, h_rewrite, params=dict(spec=spec, props=props), timeout=900)
     chk.bounds = dict(BOUNDS)
-    if pid in ("C01", "C02", "C03", "C05", "C06"):
+    if pid in ARM64_PIDS:
         chk.bounds["ARM64"] = ("the same layouts and requests on an ARM64 ELF module for the patches that have an ARM64 rendering "
                                "(instruction lengths are the constant 4; gaps, data sizes, addresses, displacements symbolic)")
     chk.assumptions = list(ASSUME)
